@@ -38,30 +38,44 @@ pub mod client {
 
 pub mod server {
     use anyhow::Result;
-    use futures::FutureExt;
-    use futures::SinkExt;
-    use futures::StreamExt;
+    use tokio::io::AsyncReadExt;
+    use tokio::io::AsyncWriteExt;
     use tokio::net::TcpStream;
-    use tokio_util::codec::FramedRead;
-    use tokio_util::codec::FramedWrite;
+    use tokio_util::bytes::BufMut;
+    use tokio_util::bytes::BytesMut;
+    use tokio_util::codec::Decoder;
 
     use crate::protocol::socks5::Socks5AuthMethod;
     use crate::protocol::socks5::codec::Socks5CommandRequestDecoder;
     use crate::protocol::socks5::codec::Socks5InitialRequestDecoder;
-    use crate::protocol::socks5::codec::Socks5ServerEncoder;
     use crate::protocol::socks5::message::Socks5CommandRequest;
     use crate::protocol::socks5::message::Socks5CommandResponse;
     use crate::protocol::socks5::message::Socks5InitialResponse;
+    use crate::protocol::socks5::message::Socks5Message;
 
     pub async fn no_auth(stream: &mut TcpStream, response: Socks5CommandResponse) -> Result<Socks5CommandRequest> {
-        let (rh, wh) = stream.split();
-        let mut reader = FramedRead::new(rh, Socks5InitialRequestDecoder);
-        reader.next().map(Option::unwrap).await?;
-        let mut reader = FramedRead::new(reader.into_inner(), Socks5CommandRequestDecoder);
-        let mut writer = FramedWrite::new(wh, Socks5ServerEncoder);
-        writer.send(Box::new(Socks5InitialResponse::new(Socks5AuthMethod::NoAuth))).await?;
-        let command_request = reader.next().map(Option::unwrap).await?;
-        writer.send(Box::new(response)).await?;
+        read_message(stream, Socks5InitialRequestDecoder).await?;
+        write_message(stream, Socks5InitialResponse::new(Socks5AuthMethod::NoAuth)).await?;
+        let command_request = read_message(stream, Socks5CommandRequestDecoder).await?;
+        write_message(stream, response).await?;
         Ok(command_request)
+    }
+
+    /// Reads exactly one message: whatever the peer sends behind it stays in the socket for the tunnel.
+    async fn read_message<D: Decoder<Error = anyhow::Error>>(stream: &mut TcpStream, mut decoder: D) -> Result<D::Item> {
+        let mut buf = BytesMut::new();
+        loop {
+            if let Some(item) = decoder.decode(&mut buf)? {
+                return Ok(item);
+            }
+            buf.put_u8(stream.read_u8().await?);
+        }
+    }
+
+    async fn write_message(stream: &mut TcpStream, mut message: impl Socks5Message) -> Result<()> {
+        let mut buf = BytesMut::new();
+        message.encode(&mut buf);
+        stream.write_all(&buf).await?;
+        Ok(())
     }
 }
